@@ -398,6 +398,8 @@ func candidates(v0 string, payloads []string, thorough bool) []struct{ val, plac
 					add(v0[:k]+p+v0[k:], "token", i)
 				}
 			}
+			add(v0[:len(v0)-1]+p, "replace-last", i)
+			add(p+v0[1:], "replace-first", i)
 			if len(v0) >= 2 {
 				add(v0[:len(v0)-1]+p+v0[len(v0)-1:], "before-last", i)
 				k := len(v0) / 2
@@ -760,11 +762,26 @@ func inventory(covered map[string]bool, annCovered map[string]bool) Inventory {
 // RegexRec carries the verdicts of one REAL validator regular expression on a corpus; Rocq evaluates the
 // hand transcription (Tmpl.Validators) on the same strings.
 type RegexRec struct {
-	Rec    string  `json:"rec"` // "regex"
-	Name   string  `json:"name"`   // key of Tmpl.Validators.validator_regexes
-	Source string  `json:"source"` // the Go variable
-	Cases  [][]int `json:"cases"`  // bytes of the string
-	Match  []bool  `json:"match"`
+	Rec    string     `json:"rec"`    // "regex"
+	Name   string     `json:"name"`   // key of Tmpl.Validators.validator_regexes
+	Source string     `json:"source"` // the Go variable
+	Rows   []SweepRow `json:"rows"`
+}
+
+// SweepRow: the sample perturbed by every byte value at one position (mode 0 insert, 1 replace)
+type SweepRow struct {
+	Sample []int  `json:"sample"`
+	Pos    int    `json:"pos"`
+	Mode   int    `json:"mode"`
+	Bits   string `json:"bits"` // 256 characters 0/1: MatchString of the real regexp
+}
+
+// strings the real expressions accept (checked: a sample the real expression rejects is skipped)
+var regexSamples = map[string][]string{
+	"vs_path": {"/", "/a-b/c"}, "ing_rewrite": {"/", "/a/b"}, "ing_path": {"/", "/a{1}"}, "escaped": {"", "a\\\"b", "x\\\\y"},
+	"realm": {"", "My Realm", "a\\\"b"}, "jwt_token": {"$http_token", "$a\\b"}, "return_type": {"text/plain", "a\\;b"},
+	"grpc_service": {"", "my.Service"}, "ts_hash": {"hash x", "hash ${remote_addr} consistent"}, "size": {"10", "8k"}, "offset": {"10", "2g"},
+	"rate": {"10r/s", "1r/M"}, "proxy_buffers": {"4 8k"}, "time": {"30s", "1h 30m", "5ms"},
 }
 
 func regexRecords() []RegexRec {
@@ -778,29 +795,6 @@ func regexRecords() []RegexRec {
 	for k, v := range k8s.VerifC06Regexps() {
 		all[k] = v
 	}
-	samples := []string{"", "/", "/path", "/path/sub-1", "10", "10k", "8M", "2g", "10r/s", "100r/M", "0r/s", "4 8k", "4  8k", "1h 30m", "30s", "5ms", "1y2M",
-		"hash x", "hash x consistent", "hash ${remote_addr} consistent", "hash  x", "hash x y", "$http_token", "$", "My Realm", "text/plain",
-		"a\\\"b", "a\\$", "a\\", "\\\\", "GrpcService.Name", "x y", "\n", "a\nb", "/a\n"}
-	var corpus []string
-	seen := map[string]bool{}
-	add := func(s string) {
-		if !seen[s] {
-			seen[s] = true
-			corpus = append(corpus, s)
-		}
-	}
-	for _, s := range samples {
-		add(s)
-	}
-	for _, p := range corePayloads {
-		add(p)
-		for _, s := range samples {
-			if len(s) > 0 && len(s) < 16 {
-				add(s + p)
-				add(p + s)
-			}
-		}
-	}
 	var keys []string
 	for k := range all {
 		keys = append(keys, k)
@@ -810,14 +804,28 @@ func regexRecords() []RegexRec {
 	for _, k := range keys {
 		parts := strings.SplitN(k, "@", 2)
 		r := RegexRec{Rec: "regex", Name: parts[0], Source: parts[1]}
-		// a deterministic slice of the corpus: every 16th string (offset by the key) and all short ones
-		off := len(k) % 48
-		for i, s := range corpus {
-			if i%48 != off && len(s) > 2 {
+		re := all[k]
+		for _, smp := range regexSamples[parts[0]] {
+			if !re.MatchString(smp) {
 				continue
 			}
-			r.Cases = append(r.Cases, vh.Bytes(s))
-			r.Match = append(r.Match, all[k].MatchString(s))
+			for mode := 0; mode < 2; mode++ {
+				for pos := 0; pos <= len(smp)-mode; pos++ {
+					if len(smp) > 12 && pos > 6 && pos < len(smp)-4 {
+						continue // long samples: the two ends only
+					}
+					bits := make([]byte, 256)
+					for c := 0; c < 256; c++ {
+						t := smp[:pos] + string([]byte{byte(c)}) + smp[pos+mode:]
+						if re.MatchString(t) {
+							bits[c] = '1'
+						} else {
+							bits[c] = '0'
+						}
+					}
+					r.Rows = append(r.Rows, SweepRow{Sample: vh.Bytes(smp), Pos: pos, Mode: mode, Bits: string(bits)})
+				}
+			}
 		}
 		out = append(out, r)
 	}
